@@ -1,5 +1,6 @@
 (* Proofs about Model/Convert.v against the coercion specification Gql/Coerce.v. *)
 From Coq Require Import List String Ascii ZArith Bool Lia Permutation.
+From AC Require Gql.InSchema Model.Inputs Proofs.FreshP.
 From AC Require Import Base.Strs Base.Sexp Base.Json Model.Names Proofs.NamesP Gql.Coerce Model.Args
      Proofs.ArgsP Model.Convert.
 Import ListNotations.
@@ -54,8 +55,17 @@ Proof.
   - apply IH. intro; apply H; right; assumption.
 Qed.
 
-Lemma fwire_is_name snake f : fwire snake f = if_name f.
-Proof. unfold fwire, fdecl. rewrite field_wire_name. apply l2s_s2l. Qed.
+Lemma fwire_is_name snake all f : fwire snake all f = if_name f.
+Proof.
+  unfold fwire. destruct (String.eqb (fpy snake all f) (if_name f)) eqn:E; [apply String.eqb_eq; exact E|reflexivity].
+Qed.
+
+(* distinct GraphQL field names give distinct Python field names (C06: Proofs/FreshP.v fname_nodup) *)
+Lemma fpy_nodup snake fs : NoDup (map if_name fs) -> NoDup (map (fpy snake fs) fs).
+Proof.
+  intro H. pose proof (FreshP.fname_nodup snake (map stub fs)) as L.
+  rewrite !map_map in L. simpl in L. apply L. exact H.
+Qed.
 
 (* ---------- lists: element-wise results lift to map_opt ---------- *)
 Lemma list_delivery {X J C} (D : nat -> X -> option J) (Co : J -> option C) (I : X -> option C) n l :
@@ -77,50 +87,51 @@ Qed.
 Section DumpFields.
   Variable df : gtype -> pyval -> option json.
   Variable snake : bool.
+  Variable all : list ifield.
   Variable kw : list (string * pyval).
 
   Lemma dump_fields_keys fs o :
-    dump_fields df snake fs kw = Some o -> forall k, In k (map fst o) -> In k (map (fwire snake) fs).
+    dump_fields df snake all fs kw = Some o -> forall k, In k (map fst o) -> In k (map (fwire snake all) fs).
   Proof.
     revert o; induction fs as [|f r IH]; simpl; intros o H k Hk.
     - inversion H; subst; exact Hk.
-    - destruct (assoc (fpy snake f) kw) as [v|].
+    - destruct (assoc (fpy snake all f) kw) as [v|].
       + destruct (df (if_type f) v) as [j|]; [|discriminate].
-        destruct (dump_fields df snake r kw) as [o'|]; [|discriminate].
+        destruct (dump_fields df snake all r kw) as [o'|]; [|discriminate].
         inversion H; subst; simpl in Hk. destruct Hk as [Hk|Hk]; [left; exact Hk|right; eapply IH; eauto].
       + right; eapply IH; eauto.
   Qed.
 
   Lemma dump_fields_nodup fs o :
-    NoDup (map (fwire snake) fs) -> dump_fields df snake fs kw = Some o -> NoDup (map fst o).
+    NoDup (map (fwire snake all) fs) -> dump_fields df snake all fs kw = Some o -> NoDup (map fst o).
   Proof.
     revert o; induction fs as [|f r IH]; simpl; intros o Hn H.
     - inversion H; constructor.
-    - apply NoDup_cons_iff in Hn as [Hnotin Hnd]. destruct (assoc (fpy snake f) kw) as [v|].
+    - apply NoDup_cons_iff in Hn as [Hnotin Hnd]. destruct (assoc (fpy snake all f) kw) as [v|].
       + destruct (df (if_type f) v) as [j|]; [|discriminate].
-        destruct (dump_fields df snake r kw) as [o'|] eqn:E; [|discriminate].
+        destruct (dump_fields df snake all r kw) as [o'|] eqn:E; [|discriminate].
         inversion H; subst; simpl. constructor; [|apply IH; auto].
         intro Hin. apply Hnotin. eapply dump_fields_keys; eauto.
       + apply IH; auto.
   Qed.
 
   Lemma dump_fields_lookup fs o :
-    NoDup (map (fwire snake) fs) -> dump_fields df snake fs kw = Some o ->
+    NoDup (map (fwire snake all) fs) -> dump_fields df snake all fs kw = Some o ->
     forall g, In g fs ->
-      jlookup (fwire snake g) o =
-      match assoc (fpy snake g) kw with Some v => df (if_type g) v | None => None end.
+      jlookup (fwire snake all g) o =
+      match assoc (fpy snake all g) kw with Some v => df (if_type g) v | None => None end.
   Proof.
     revert o; induction fs as [|f r IH]; simpl; intros o Hn H g Hg; [contradiction|].
     apply NoDup_cons_iff in Hn as [Hnotin Hnd].
-    destruct (assoc (fpy snake f) kw) as [v|] eqn:Ef.
+    destruct (assoc (fpy snake all f) kw) as [v|] eqn:Ef.
     - destruct (df (if_type f) v) as [j|] eqn:Ej; [|discriminate].
-      destruct (dump_fields df snake r kw) as [o'|] eqn:E; [|discriminate].
+      destruct (dump_fields df snake all r kw) as [o'|] eqn:E; [|discriminate].
       inversion H; subst; simpl.
       destruct Hg as [Hg|Hg].
       + subst g. rewrite String.eqb_refl, Ef. symmetry; exact Ej.
-      + destruct (String.eqb (fwire snake g) (fwire snake f)) eqn:Eq.
+      + destruct (String.eqb (fwire snake all g) (fwire snake all f)) eqn:Eq.
         * apply String.eqb_eq in Eq. exfalso. apply Hnotin. rewrite <- Eq.
-          apply (in_map (fwire snake)). exact Hg.
+          apply (in_map (fwire snake all)). exact Hg.
         * apply IH; auto.
     - destruct Hg as [Hg|Hg].
       + subst g. rewrite Ef. rewrite jlookup_assoc. apply assoc_None.
@@ -150,28 +161,27 @@ Section Delivery.
 
   Lemma input_guards nm fs :
     lookup_type S nm = Some (DInput fs) ->
-    NoDup (map (fpy snake) fs) /\ NoDup (map if_name fs).
+    NoDup (map (fpy snake fs) fs) /\ NoDup (map if_name fs).
   Proof.
     intro H. apply lookup_input_in in H.
     unfold inputs_ok in Hinputs. apply andb_true_iff in Hinputs as [Hi _].
     rewrite forallb_forall in Hi. specialize (Hi _ H). simpl in Hi.
-    apply andb_true_iff in Hi as [H1 H2].
-    split; apply nodup_str_NoDup; assumption.
+    apply nodup_str_NoDup in Hi. split; [apply fpy_nodup; exact Hi|exact Hi].
   Qed.
 
   Definition DF (m : nat) : gtype -> pyval -> option json := fun t' => dump_field ser m S snake t' true.
 
   (* fields of one input object, given the statement for each field value *)
   Lemma fields_delivery n fs kw :
-    NoDup (map (fpy snake) fs) -> NoDup (map if_name fs) ->
+    NoDup (map (fpy snake fs) fs) -> NoDup (map if_name fs) ->
     typed_fields (typed n S snake) snake fs kw = true ->
-    (forall f v, In f fs -> assoc (fpy snake f) kw = Some v -> typed n S snake (if_type f) v = true ->
+    (forall f v, In f fs -> assoc (fpy snake fs f) kw = Some v -> typed n S snake (if_type f) v = true ->
        exists j c, (forall m, n <= m -> DF m (if_type f) v = Some j) /\
                    coerce n S (if_type f) j = Some c /\ intend ser n S snake (if_type f) v = Some c) ->
-    exists o cs, (forall m, n <= m -> dump_fields (DF m) snake fs kw = Some o) /\
+    exists o cs, (forall m, n <= m -> dump_fields (DF m) snake fs fs kw = Some o) /\
                  keys_known fs o && nodup_str (map fst o) = true /\
                  coerce_fields (coerce n S) fs o = Some cs /\
-                 intend_fields (intend ser n S snake) snake fs kw = Some cs.
+                 intend_fields (intend ser n S snake) snake fs fs kw = Some cs.
   Proof.
     intros Hpy Hnm Hty Hfield.
     unfold typed_fields in Hty. apply andb_true_iff in Hty as [Hty Hall].
@@ -179,33 +189,33 @@ Section Delivery.
     rewrite forallb_forall in Hall.
     (* 1. the dumped object exists, uniformly in the fuel *)
     assert (Hex : forall fs', incl fs' fs ->
-              exists o, forall m, n <= m -> dump_fields (DF m) snake fs' kw = Some o).
+              exists o, forall m, n <= m -> dump_fields (DF m) snake fs fs' kw = Some o).
     { induction fs' as [|f r IH]; intro Hincl.
       - exists []. reflexivity.
       - destruct IH as [o' Ho']; [intros x Hx; apply Hincl; right; exact Hx|].
         assert (Hf : In f fs) by (apply Hincl; left; reflexivity).
-        destruct (assoc (fpy snake f) kw) as [v|] eqn:Ev.
+        destruct (assoc (fpy snake fs f) kw) as [v|] eqn:Ev.
         + specialize (Hall f Hf). rewrite Ev in Hall.
           destruct (Hfield f v Hf Ev Hall) as [j [c [Hd _]]].
-          exists ((fwire snake f, j) :: o'). intros m Hm. simpl. rewrite Ev, (Hd m Hm), (Ho' m Hm). reflexivity.
+          exists ((fwire snake fs f, j) :: o'). intros m Hm. simpl. rewrite Ev, (Hd m Hm), (Ho' m Hm). reflexivity.
         + exists o'. intros m Hm. simpl. rewrite Ev. apply Ho'; exact Hm. }
     destruct (Hex fs (incl_refl _)) as [o Ho].
-    assert (Hwire : NoDup (map (fwire snake) fs)).
-    { rewrite (map_ext (fwire snake) if_name (fwire_is_name snake)). exact Hnm. }
+    assert (Hwire : NoDup (map (fwire snake fs) fs)).
+    { rewrite (map_ext (fwire snake fs) if_name (fwire_is_name snake fs)). exact Hnm. }
     pose proof (Ho n (le_n n)) as Hon.
     exists o.
     (* 2. coerce_fields over the whole object agrees with intend_fields *)
     assert (Hco : forall fs', incl fs' fs ->
               exists cs, coerce_fields (coerce n S) fs' o = Some cs /\
-                         intend_fields (intend ser n S snake) snake fs' kw = Some cs).
+                         intend_fields (intend ser n S snake) snake fs fs' kw = Some cs).
     { induction fs' as [|f r IH]; intro Hincl.
       - exists []. split; reflexivity.
       - destruct IH as [cs [Hc Hi]]; [intros x Hx; apply Hincl; right; exact Hx|].
         assert (Hf : In f fs) by (apply Hincl; left; reflexivity).
-        pose proof (dump_fields_lookup (DF n) snake kw fs o Hwire Hon f Hf) as Hl.
+        pose proof (dump_fields_lookup (DF n) snake fs kw fs o Hwire Hon f Hf) as Hl.
         rewrite fwire_is_name in Hl. simpl. rewrite Hl.
         specialize (Hall f Hf).
-        destruct (assoc (fpy snake f) kw) as [v|] eqn:Ev.
+        destruct (assoc (fpy snake fs f) kw) as [v|] eqn:Ev.
         + destruct (Hfield f v Hf Ev Hall) as [j [c [Hd [Hcj Hiv]]]].
           rewrite (Hd n (le_n n)), Hcj, Hc, Hiv, Hi. exists ((if_name f, c) :: cs). split; reflexivity.
         + destruct (if_default f) as [d|] eqn:Ed.
@@ -216,9 +226,9 @@ Section Delivery.
     apply andb_true_iff. split.
     - unfold keys_known. apply forallb_forall. intros [k j] Hk. simpl.
       apply mem_str_In.
-      assert (In k (map (fwire snake) fs)).
+      assert (In k (map (fwire snake fs) fs)).
       { eapply dump_fields_keys; [exact Hon|]. apply in_map_iff. exists (k, j). split; [reflexivity|exact Hk]. }
-      rewrite (map_ext (fwire snake) if_name (fwire_is_name snake)) in H. exact H.
+      rewrite (map_ext (fwire snake fs) if_name (fwire_is_name snake fs)) in H. exact H.
     - apply nodup_str_NoDup. eapply dump_fields_nodup; eauto.
   Qed.
 
@@ -338,7 +348,7 @@ Section Delivery.
       + apply andb_true_iff in Hty as [_ Hfs]. simpl. rewrite El.
         unfold typed_fields in Hfs. apply andb_true_iff in Hfs as [_ Hall].
         rewrite forallb_forall in Hall. apply forallb_forall. intros f Hf.
-        specialize (Hall f Hf). destruct (assoc (fpy snake f) kw) as [x|]; [|reflexivity].
+        specialize (Hall f Hf). destruct (assoc (fpy snake fs f) kw) as [x|]; [|reflexivity].
         apply IH; [exact Hall | discriminate].
     - destruct v as [| |z|fl|s|b|ty s|j0|l|cls kw]; try discriminate.
       + simpl. destruct nl; [reflexivity|exfalso; apply Hnl; reflexivity].
